@@ -8,7 +8,7 @@ namespace PV.Legacy
 open PV
 
 /-! ### attribute lines -/
-def ContAttr.core (a : ContAttr) : Str := a.key.print ++ ((if a.spaced then asc " = " else asc "=") ++ dec a.value)
+def ContAttr.core (a : ContAttr) : Str := a.key.print ++ ((if a.spaced then asc " = " else asc "=") ++ intStr a.value)
 
 theorem ContAttr.print_eq (a : ContAttr) : a.print = sp a.indent ++ a.core := by
   simp [ContAttr.print, ContAttr.core, List.append_assoc]
@@ -19,7 +19,7 @@ theorem ContKey.print_cons (k : ContKey) : ∃ c t, k.print = c :: t ∧ isSpace
 theorem ContAttr.core_reverse_stops (a : ContAttr) : Stops isSpace a.core.reverse := by
   unfold ContAttr.core
   rw [← List.append_assoc]
-  exact Stops_reverse_append _ _ (dec_ne_nil _) (dec_reverse_stops _)
+  exact Stops_reverse_append _ _ (intStr_ne_nil _) (intStr_reverse_stops _)
 
 theorem ContAttr.trim (a : ContAttr) : trimSpace a.print = a.core := by
   rw [a.print_eq]
@@ -27,26 +27,27 @@ theorem ContAttr.trim (a : ContAttr) : trimSpace a.print = a.core := by
   exact trimSpace_replicate _ _ (by unfold ContAttr.core; rw [hk]; simpa using hc) a.core_reverse_stops
 
 theorem ContAttr.split (a : ContAttr) :
-    ∃ k v, splitEq a.core = some (k, v) ∧ trimSpace k = a.key.print ∧ trimSpace v = dec a.value := by
-  have hv : trimSpace (sp 1 ++ dec a.value) = dec a.value := by
-    obtain ⟨c, t, hd, hc⟩ := dec_cons a.value
-    exact trimSpace_replicate 1 _ (by rw [hd]; simpa using isSpace_false_of_isDigit hc) (dec_reverse_stops _)
-  have hv0 : trimSpace (dec a.value) = dec a.value := by
-    obtain ⟨c, t, hd, hc⟩ := dec_cons a.value
-    exact trimSpace_of_stops (by rw [hd]; simpa using isSpace_false_of_isDigit hc) (dec_reverse_stops _)
+    ∃ k v, splitEq a.core = some (k, v) ∧ trimSpace k = a.key.print ∧ trimSpace v = intStr a.value := by
+  have hhead : Stops isSpace (intStr a.value) := by
+    obtain ⟨c, t, hd, hc⟩ := intStr_cons a.value
+    rw [hd]; simpa using (head_not_space hc).1
+  have hv : trimSpace (sp 1 ++ intStr a.value) = intStr a.value :=
+    trimSpace_replicate 1 _ hhead (intStr_reverse_stops _)
+  have hv0 : trimSpace (intStr a.value) = intStr a.value :=
+    trimSpace_of_stops hhead (intStr_reverse_stops _)
   unfold ContAttr.core
   cases a.spaced with
   | true =>
-    refine ⟨a.key.print ++ [32], sp 1 ++ dec a.value, ?_, ?_, hv⟩
-    · have : a.key.print ++ ((if true = true then asc " = " else asc "=") ++ dec a.value)
-          = (a.key.print ++ [32]) ++ 61 :: (sp 1 ++ dec a.value) := by simp [asc, sp]
+    refine ⟨a.key.print ++ [32], sp 1 ++ intStr a.value, ?_, ?_, hv⟩
+    · have : a.key.print ++ ((if true = true then asc " = " else asc "=") ++ intStr a.value)
+          = (a.key.print ++ [32]) ++ 61 :: (sp 1 ++ intStr a.value) := by simp [asc, sp]
       rw [this]
       exact splitEq_append _ _ (by cases a.key <;> decide)
     · cases a.key <;> decide
   | false =>
-    refine ⟨a.key.print, dec a.value, ?_, ?_, hv0⟩
-    · have : a.key.print ++ ((if false = true then asc " = " else asc "=") ++ dec a.value)
-          = a.key.print ++ 61 :: dec a.value := by simp [asc]
+    refine ⟨a.key.print, intStr a.value, ?_, ?_, hv0⟩
+    · have : a.key.print ++ ((if false = true then asc " = " else asc "=") ++ intStr a.value)
+          = a.key.print ++ 61 :: intStr a.value := by simp [asc]
       rw [this]
       exact splitEq_append _ _ (by cases a.key <;> decide)
     · cases a.key <;> decide
@@ -62,19 +63,19 @@ theorem contAttrLoop_fillers (fs : List Filler) (R : List Str) (st : ContState) 
   | nil => rfl
   | cons f fs ih => simpa [printFillers, contAttrLoop, trimSpace_filler] using ih
 
-theorem contAttrLoop_attr (a : ContAttr) (ha : a.value < two63) (R : List Str) (st : ContState) :
+theorem contAttrLoop_attr (a : ContAttr) (ha : -(two63 : Int) ≤ a.value ∧ a.value < (two63 : Int)) (R : List Str) (st : ContState) :
     contAttrLoop (a.print :: R) st = contAttrLoop R (st.set a.key a.value) := by
   obtain ⟨c, t, hk, hc, h35, h45⟩ := a.key.print_cons
-  have hcore : a.core = c :: (t ++ ((if a.spaced then asc " = " else asc "=") ++ dec a.value)) := by
+  have hcore : a.core = c :: (t ++ ((if a.spaced then asc " = " else asc "=") ++ intStr a.value)) := by
     unfold ContAttr.core; rw [hk]; rfl
   have h1 : isSpaceOrComment a.core = false := by rw [hcore]; exact isSpaceOrComment_head' _ hc h35
   have h2 : hasPrefix (asc "---") a.core = false := by rw [hcore]; exact hasPrefix_dashes_ne _ h45
   obtain ⟨k, v, hs, hk', hv'⟩ := a.split
   rw [contAttrLoop]
-  simp only [ContAttr.trim, h1, h2, Bool.false_eq_true, if_false, hs, hk', hv', contKeyOf_print, parseI64Base0_dec ha]
+  simp only [ContAttr.trim, h1, h2, Bool.false_eq_true, if_false, hs, hk', hv', contKeyOf_print, parseI64Base0Z_intStr ha.1 ha.2]
   cases a.key <;> rfl
 
-theorem contAttrLoop_attrs (as : List ContAttr) (h : ∀ a ∈ as, a.value < two63) (R : List Str) (st : ContState) :
+theorem contAttrLoop_attrs (as : List ContAttr) (h : ∀ a ∈ as, -(two63 : Int) ≤ a.value ∧ a.value < (two63 : Int)) (R : List Str) (st : ContState) :
     contAttrLoop (as.flatMap (fun a => printFillers a.fill ++ [a.print]) ++ R) st
       = contAttrLoop R (as.foldl (fun st a => st.set a.key a.value) st) := by
   induction as generalizing st with
@@ -254,7 +255,7 @@ theorem splitLines_printContention (d : ContDoc) (h : d.wf = true) : splitLines 
     · exact LineOK_fillers (List.all_eq_true.2 (hattrs a ha).1) l hl
     · subst hl
       have h1 : LineOK (if a.spaced then asc " = " else asc "=") := by cases a.spaced <;> decide
-      simp only [ContAttr.print]; lineok; exact ⟨LineOK_contKey _, h1⟩
+      simp only [ContAttr.print]; lineok; exact ⟨⟨LineOK_contKey _, h1⟩, LineOK_intStr _⟩
   · have hw := hrecs r hr
     simp only [ContRec.wf, Bool.and_eq_true, List.all_eq_true] at hw
     rcases hl with hl | hl
